@@ -319,3 +319,67 @@ def fb_ctor(this):
     rt.memset(this, 0, FB_SIZE)
     st(this, 8, vt + 16)
 _reg([P + 'C2Ev', P + 'C1Ev'], fb_ctor)
+
+def path_assign(this, other):
+    _assign_path(this, _std_string(other)); return this
+_reg(['_ZNSt10filesystem7__cxx114pathaSERKS1_'], path_assign, override=False)
+def path_assign_string(this, sp):
+    _assign_path(this, _std_string(sp)); return this
+_reg(['_ZNSt10filesystem7__cxx114pathaSEONSt7__cxx1112basic_stringIcSt11char_traitsIcESaIcEEE'], path_assign_string, override=False)
+
+# ---- __basic_file level: basic_filebuf::open / close are non-virtual and may have been inlined into their callers by clang; the inlined bodies
+# call these members of the embedded __basic_file. The filebuf-level models attach lazily to a file opened this way.
+BF = {}     # __basic_file address -> dict(path, mode, open)
+def bf_open(this, name, mode, prot=0):
+    path = os_norm(rt.cstr(name)); mode &= 0xFFFFFFFF
+    rt.VFS_OPENED.append((path, mode))
+    if this in BF and BF[this]['open']: return 0
+    if path not in rt.VFS:
+        if mode & 16 and not (mode & 8 and not mode & 32): rt.VFS_WRITES.append(('create', path)); rt.VFS[path] = b''
+        else: return 0
+    if mode & 32: rt.VFS_WRITES.append(('truncate', path)); rt.VFS[path] = b''
+    BF[this] = dict(path=path, mode=mode, open=True)
+    return this
+def bf_close(this):
+    s_ = BF.get(this)
+    if s_ is None or not s_['open']: return 0
+    s_['open'] = False
+    for fb, stt in FB.items():
+        if fb <= this < fb + FB_SIZE: stt['open'] = False
+    return this
+_reg(['_ZNSt12__basic_fileIcE4openEPKcSt13_Ios_Openmodei'], bf_open, override=False)
+_reg(['_ZNSt12__basic_fileIcE5closeEv'], bf_close, override=False)
+def _bf_of(fb):
+    for a, stt in BF.items():
+        if fb <= a < fb + FB_SIZE and stt['open']: return stt
+    return None
+def _attach(this):
+    s_ = FB.get(this)
+    if s_ is not None and s_['open']: return s_
+    b = _bf_of(this)
+    if b is None: return None
+    data = rt.VFS[b['path']]; n = len(data)
+    buf = rt.new_obj(max(n, 1), 'heap', 'file content of %r (%d bytes)' % (b['path'], n))
+    if isinstance(data, (bytes, bytearray)): rt.OBJ[buf >> 32].data[0:n] = data
+    else:
+        for i, v in enumerate(data): st(buf + i, 1, v)
+    st(this + 8, 8, buf); st(this + 16, 8, buf); st(this + 24, 8, buf + n)
+    FB[this] = dict(buf=buf, size=n, open=True, path=b['path'], mode=b['mode'])
+    return FB[this]
+_orig = dict(underflow=fb_underflow, xsgetn=fb_xsgetn, seekoff=fb_seekoff, showmanyc=fb_showmanyc)
+def fb_underflow2(this): _attach(this); return _orig['underflow'](this)
+def fb_xsgetn2(this, dst, n): _attach(this); return _orig['xsgetn'](this, dst, n)
+def fb_seekoff2(this, off, way, mode): _attach(this); return _orig['seekoff'](this, off, way, mode)
+def fb_seekpos2(this, pos, state, mode): _attach(this); return _orig['seekoff'](this, pos, 0, mode)
+def fb_showmanyc2(this): _attach(this); return _orig['showmanyc'](this)
+_reg([P + '9underflowEv'], fb_underflow2)
+_reg([P + '6xsgetnEPcl'], fb_xsgetn2)
+_reg([P + '7seekoffElSt12_Ios_SeekdirSt13_Ios_Openmode'], fb_seekoff2)
+_reg([P + '7seekposESt4fposI11__mbstate_tESt13_Ios_Openmode'], fb_seekpos2)
+_reg([P + '9showmanycEv'], fb_showmanyc2)
+def bf_is_open2(this):
+    s_ = BF.get(this)
+    if s_ is not None: return 1 if s_['open'] else 0
+    s_ = _fb_of(this)
+    return 1 if s_ and s_['open'] else 0
+_reg(['_ZNKSt12__basic_fileIcE7is_openEv'], bf_is_open2, override=False)
